@@ -447,6 +447,24 @@ def check(run):
     run.lean()
     if not run.driver_ok:
         return
+    # the regenerated defaults of `_adapt_bandwidth` against the live function and against the constants this harness uses
+    import inspect
+    from xrfm.rfm_src.kernels import Kernel
+    drv = core.Driver('C19')
+    try:
+        facts = drv.ask({'op': 'bandwidth_facts'})
+    finally:
+        drv.close()
+    run.case('bandwidth-defaults', nontrivial_key='defaults', sample=facts)
+    sig = inspect.signature(Kernel._adapt_bandwidth).parameters
+    if 'error' in facts:
+        run.disagree('bandwidth-defaults', {}, f'model has no bandwidth facts: {facts["error"]}')
+    else:
+        live = {'subsampleLimit': sig['sub_mat_size'].default, 'guardEps': sig['eps'].default, 'mode': sig['adapt_mode'].default}
+        want = {'subsampleLimit': facts['subsampleLimit'], 'guardEps': 10.0 ** facts['guardEpsExp10'], 'mode': 'median'}
+        if live != want or want['guardEps'] != EPS_GUARD:
+            run.disagree('bandwidth-defaults', {'live': live, 'model': want, 'harness_eps': EPS_GUARD},
+                         f'defaults of _adapt_bandwidth: live {live}, regenerated model {want}, harness guard {EPS_GUARD}')
     cases = gen_cases(run)
     results = core.pmap(MOD, [{'cases': c} for c in core.chunks(cases, 64)])
     run.absorb('c19', results)
